@@ -83,6 +83,10 @@ J08(f, o) == Dom(f, o) =>
 J09(f, o) == Dom(f, o) =>
                 (/\ Execs(o.events) = Execs(f.events)
                  /\ Len(Execs(o.events)) <= 1
+                 \* a parse that reports no error has run the innermost active command exactly once (through Execute or the
+                 \* CommandHandler) - or there is nothing to run
+                 /\ (o.ok /\ f.sc.completion = E /\ o.chain # <<>>) =>
+                       Len(Execs(o.events)) = (IF f.d.cmds[o.chain[Len(o.chain)]].exec \/ f.sc.cmdHandler THEN 1 ELSE 0)
                  /\ (f.err.t = "foreign" /\ Execs(f.events) # <<>>) => o.errType = "foreign:exec"
                  /\ o.errType = "foreign:exec" => Execs(f.events) # <<>>)
 
